@@ -18,6 +18,7 @@ type FuncResult struct {
 	Obs        []*Oblig
 	Errors     []string // outside-subset / engine errors (undecided parts)
 	Assumption []string
+	Assumed    bool
 }
 
 func (w *World) verifyContract(con *Contract, opts *RunOpts) (res *FuncResult) {
@@ -29,6 +30,12 @@ func (w *World) verifyContract(con *Contract, opts *RunOpts) (res *FuncResult) {
 	}
 	res.Fn = fn
 	res.Stats.SSAInstrs = countInstrs(fn)
+	if len(con.clauses("trusted")) > 0 && len(con.clauses("ensures")) == 0 {
+		// an assumed contract (used at call sites only): nothing to prove here;
+		// it is listed among the assumptions
+		res.Assumed = true
+		return res
+	}
 	e := &Exec{w: w, fnUnder: fn, conUnder: con, stats: res.Stats, callSeq: map[string]int{}, noContract: map[string]bool{}}
 	if v, ok := con.option("inline"); ok {
 		for _, f := range strings.Fields(v) {
